@@ -13,6 +13,15 @@ import (
 	"time"
 )
 
+// repoRoot: the tree under test (default /repo; SYMX_REPO points the engine at a scratch
+// worktree, used only for experiments such as re-validating a finding on the unfixed code)
+var repoRoot = func() string {
+	if v := os.Getenv("SYMX_REPO"); v != "" {
+		return v
+	}
+	return "/repo"
+}()
+
 func main() {
 	if len(os.Args) < 2 {
 		fmt.Println("usage: symx run|check ...")
